@@ -39,6 +39,9 @@ Proof.
   - apply N.eqb_eq in H. subst. reflexivity.
   - apply andb_true_iff in H. destruct H as [H1 H2].
     apply N.eqb_eq in H1. apply N.eqb_eq in H2. subst. reflexivity.
+  - apply N.eqb_eq in H. subst. reflexivity.
+  - apply andb_true_iff in H. destruct H as [H1 H2].
+    apply N.eqb_eq in H1. apply N.eqb_eq in H2. subst. reflexivity.
   - apply ustr_eqb_eq in H. subst. reflexivity.
   - apply ustr_eqb_eq in H. subst. reflexivity.
 Qed.
@@ -527,6 +530,19 @@ Lemma numv_is_none_true nv : numv_is_none nv = true -> nv = numv_none.
 Proof. destruct nv as [[|] [|] [|] [|] [|]]; try discriminate. reflexivity. Qed.
 Lemma strv_is_none_true sv : strv_is_none sv = true -> sv = strv_none.
 Proof. destruct sv as [[|] [|] [|]]; try discriminate. reflexivity. Qed.
+Lemma seq_kind_inv mni mxi uq c : seq_kind mni mxi uq = Some c ->
+  match c with
+  | CArr n => mni = Some n /\ mxi = Some n
+  | _ => len_plain mni mxi = true
+  end.
+Proof.
+  unfold seq_kind, len_plain. destruct mni as [a|], mxi as [b|];
+    try (intro H; injection H as <-; destruct uq; reflexivity).
+  destruct (a =? b) eqn:E.
+  - destruct (_ && _); [|discriminate]. intro H. injection H as <-. apply N.eqb_eq in E. subst. split; reflexivity.
+  - intro H. injection H as <-. destruct uq; reflexivity.
+Qed.
+
 Lemma items_absent_true ik : items_absent ik = true -> ik = ItemsAbsent.
 Proof. destruct ik; try discriminate. reflexivity. Qed.
 
@@ -537,15 +553,15 @@ Ltac bool_facts :=
   | H : is_nil _ = true |- _ => apply is_nil_true in H
   | H : no_num _ = true |- _ => apply numv_is_none_true in H
   | H : no_str _ = true |- _ => apply strv_is_none_true in H
-  | H : no_len _ _ = true |- _ => unfold no_len in H
+  | H : no_len _ _ _ = true |- _ => unfold no_len in H
   | H : no_array _ _ = true |- _ => unfold no_array in H
   | H : no_object _ _ _ = true |- _ => unfold no_object in H
   | H : items_absent _ = true |- _ => apply items_absent_true in H
   | H : negb _ = true |- _ => apply negb_true_iff in H
   end.
 
-Lemma no_extras_inv cst ai uq mnp mxp allo anyo oneo no dflt title :
-  no_extras cst ai uq mnp mxp allo anyo oneo no dflt title = true ->
+Lemma no_extras_inv cst ai mnp mxp allo anyo oneo no dflt title :
+  no_extras cst ai mnp mxp allo anyo oneo no dflt title = true ->
   cst = None /\ allo = None /\ anyo = None /\ oneo = None /\ no = None.
 Proof. unfold no_extras. intro H. bool_facts. subst. repeat split; reflexivity. Qed.
 
@@ -600,8 +616,8 @@ Section Main.
   Proof.
     cbn [frag]. destruct (classify _ _ _ _ _ _ _ _ _ _ _ _ _ _ _ _ _ _ _ _ _ _ _ _) as [[nl k]|] eqn:Hc; [|discriminate].
     intros _. exists nl, k. split; [reflexivity|]. unfold classify in Hc.
-    destruct (no_extras cst ai uq mnp mxp allo anyo oneo no dflt title) eqn:Hne; [|discriminate].
-    exact (no_extras_inv _ _ _ _ _ _ _ _ _ _ _ Hne).
+    destruct (no_extras cst ai mnp mxp allo anyo oneo no dflt title) eqn:Hne; [|discriminate].
+    exact (no_extras_inv _ _ _ _ _ _ _ _ _ _ Hne).
   Qed.
 
   Lemma covers_frag_Gs T s nn t :
@@ -677,13 +693,13 @@ Section Main.
 
   (* ---------------------------------------------------------------- one node *)
   (* everything an arm of [kind_of_type] has tested *)
-  Lemma kind_of_type_inv fmt enum nv sv ik items mni mxi props req ap tt k :
-    kind_of_type fmt enum nv sv ik items mni mxi props req ap tt = Some k ->
+  Lemma kind_of_type_inv fmt enum nv sv ik items mni mxi uq props req ap tt k :
+    kind_of_type fmt enum nv sv ik items mni mxi uq props req ap tt = Some k ->
     match k with KInt _ => True | _ => nv = numv_none end /\
     match k with KStrC mx mn pat => sv = mkStrv mx mn pat /\ strv_is_none sv = false | _ => sv = strv_none end /\
-    match k with KVec | KVecAny => len_plain mni mxi = true | _ => mni = None /\ mxi = None end /\
+    match k with KVec c | KVecAny c => seq_kind mni mxi uq = Some c | _ => mni = None /\ mxi = None end /\
     match k with KEnum _ => True | _ => enum = None end /\
-    match k with KVec | KVecAny => True | _ => ik = ItemsAbsent /\ items = [] end /\
+    match k with KVec _ | KVecAny _ => True | _ => ik = ItemsAbsent /\ items = [] end /\
     match k with KStruct _ | KMap => True | _ => props = [] /\ req = [] /\ ap = None end /\
     match k with KInt _ => True | _ => fmt = None end /\
     match k with
@@ -696,8 +712,8 @@ Section Main.
     | KInt r => tt = TInteger /\ exists b, ibounds_of nv = Some b /\ r = choose_int fmt b
     | KStruct deny => tt = TObject /\ ap_simple ap = Some deny
     | KMap => tt = TObject /\ props = [] /\ req = [] /\ match ap with Some (SBool false) => False | _ => True end
-    | KVec => tt = TArray /\ ik = ItemsSingle /\ exists it, items = [it]
-    | KVecAny => tt = TArray /\ ik = ItemsAbsent /\ items = []
+    | KVec _ => tt = TArray /\ ik = ItemsSingle /\ exists it, items = [it]
+    | KVecAny _ => tt = TArray /\ ik = ItemsAbsent /\ items = []
     end.
   Proof.
     unfold kind_of_type. destruct tt.
@@ -715,9 +731,10 @@ Section Main.
         * apply strv_is_none_true in Hs. subst. repeat split; reflexivity.
         * repeat split; try reflexivity; try exact Hs. destruct sv; reflexivity.
     - destruct (_ && _) eqn:Hc; [|discriminate]. bool_facts. subst.
+      destruct (seq_kind mni mxi uq) as [c|] eqn:Hsk; [|discriminate].
       destruct ik; destruct items as [|it [|it2 items]]; intro H; try discriminate; injection H as <-.
-      + repeat split; try reflexivity; assumption.
-      + repeat split; try reflexivity; try assumption. exists it. reflexivity.
+      + repeat split; reflexivity.
+      + repeat split; try reflexivity. exists it. reflexivity.
     - destruct (_ && _) eqn:Hc; [|discriminate]. bool_facts. subst.
       destruct (is_nil props && is_nil req && negb _) eqn:E.
       + intro H. injection H as <-. bool_facts. subst. repeat split; try reflexivity.
@@ -735,7 +752,7 @@ Section Main.
         keys_sorted (map fst props) && forallb (fun r => has_key r props) req
         && Sanitize.unique (field_idents cls props) && forallb (fun kv => frag cls keys (snd kv)) props
     | KMap => match ap with Some (SBool true) | None => true | Some vs => frag cls keys vs end
-    | KVec => forallb (frag cls keys) items
+    | KVec _ => forallb (frag cls keys) items
     | KRef r => mem_ustr r keys
     | _ => true
     end.
@@ -745,7 +762,7 @@ Section Main.
     match k with
     | KStruct _ => match type_name cls nm' with Some base => prop_names base props | None => [] end
     | KMap => match ap with Some vs => names_of cls vs (value_name nm') | None => [] end
-    | KVec => flat_map (fun it => names_of cls it (item_name cls nm')) items
+    | KVec c => flat_map (fun it => names_of cls it (seq_item_name cls c nm')) items
     | _ => []
     end.
 
@@ -761,16 +778,16 @@ Section Main.
   Lemma classify_cases ty fmt enum cst nv sv ik items ai mni mxi uq props req ap mnp mxp allo anyo oneo no ref dflt title nl k :
     classify ty fmt enum cst nv sv ik items ai mni mxi uq props req ap mnp mxp allo anyo oneo no ref dflt title = Some (nl, k) ->
     (exists l tt, ty = Some l /\ ref = None /\ split_type l = Some (nl, tt)
-                  /\ kind_of_type fmt enum nv sv ik items mni mxi props req ap tt = Some k)
+                  /\ kind_of_type fmt enum nv sv ik items mni mxi uq props req ap tt = Some k)
     \/ (ty = None /\ nl = false /\ nv = numv_none /\ sv = strv_none /\ mni = None /\ mxi = None /\
         fmt = None /\ enum = None /\ ik = ItemsAbsent /\ items = [] /\ props = [] /\ req = [] /\ ap = None /\
         ((exists r, ref = Some r /\ k = KRef r) \/ (ref = None /\ k = KAny))).
   Proof.
-    unfold classify. destruct (negb (no_extras _ _ _ _ _ _ _ _ _ _ _)); [discriminate|].
+    unfold classify. destruct (negb (no_extras _ _ _ _ _ _ _ _ _ _)); [discriminate|].
     destruct ty as [l|].
     - destruct ref as [r|]; [discriminate|]. cbn [is_none negb].
       destruct (split_type l) as [[nl' tt]|] eqn:Hs; [|discriminate].
-      destruct (kind_of_type fmt enum nv sv ik items mni mxi props req ap tt) as [k'|] eqn:Hk; cbn [option_map]; intro H; [|discriminate].
+      destruct (kind_of_type fmt enum nv sv ik items mni mxi uq props req ap tt) as [k'|] eqn:Hk; cbn [option_map]; intro H; [|discriminate].
       injection H as <- <-. left. exists l, tt. repeat split; assumption.
     - destruct (_ && _) eqn:Hc; [|discriminate]. bool_facts. subst.
       destruct ref as [r|]; intro H; injection H as <- <-; right; repeat (split; [reflexivity|]).
@@ -898,13 +915,13 @@ Section Main.
   Lemma conv_kind_total items props req ap k nm s0 :
     frag_kind k items props req ap = true ->
     Forall Tot items -> Forall (fun kv => Tot (snd kv)) props -> OForall Tot ap ->
-    (match k with KVec => exists it, items = [it] | _ => True end) ->
+    (match k with KVec _ => exists it, items = [it] | _ => True end) ->
     name_opt nm <> None ->
     conv_kind cls (ref_id D) cvf k nm items props req ap s0 <> None.
   Proof.
     intros Hfk HTi HTp HTa Hshape Hnm.
     destruct (type_name_some nm Hnm) as (n & Hn).
-    destruct k as [| | | |mx mn pat|r|raws|deny| | | |r|]; cbn [conv_kind]; try discriminate.
+    destruct k as [| | | |mx mn pat|r|raws|deny| |c|c|r|]; cbn [conv_kind]; try discriminate.
     - (* KStrC *)
       destruct (assign DString _). rewrite Hn. discriminate.
     - (* KEnum *)
@@ -934,8 +951,10 @@ Section Main.
     - (* KVec *)
       destruct Hshape as (it & ->). cbn [frag_kind forallb] in Hfk. rewrite andb_true_r in Hfk.
       pose proof (Forall_inv HTi) as HT1.
-      assert (Hv : name_opt (item_name cls nm) <> None) by (unfold item_name; rewrite Hn; discriminate).
-      destruct (cvf it (item_name cls nm) s0) as [[te sb]|] eqn:Hc.
+      assert (Hv : name_opt (seq_item_name cls c nm) <> None).
+      { destruct c; cbn [seq_item_name]; try (unfold item_name; rewrite Hn; discriminate).
+        destruct nm; cbn [append_item name_opt]; try discriminate; exact Hnm. }
+      destruct (cvf it (seq_item_name cls c nm) s0) as [[te sb]|] eqn:Hc.
       + destruct (assign te sb). discriminate.
       + exfalso. exact (HT1 Hfk _ _ Hv Hc).
     - (* KVecAny *)
@@ -956,7 +975,7 @@ Section Main.
       pose proof Hcl as Hcases. apply classify_cases in Hcases.
       cbn [frag] in Hf. rewrite Hcl in Hf. change (frag_kind k items props req ap = true) in Hf.
       cbn [conv]. rewrite Hcl.
-      assert (Hshape : match k with KVec => exists it, items = [it] | _ => True end).
+      assert (Hshape : match k with KVec _ => exists it, items = [it] | _ => True end).
       { destruct k; try exact I.
         destruct Hcases as [(l & tt & _ & _ & _ & Hk)|(_ & _ & _ & _ & _ & _ & _ & _ & _ & _ & _ & _ & _ & [(r & _ & Hk)|(_ & Hk)])];
           try discriminate Hk.
